@@ -327,3 +327,37 @@ package bug
 //@   loop 2
 //@     invariant forall k int :: { op.Added[k] } 0 <= k && k < len(op.Added) ==> !text.Empty(string(op.Added[k])) && text.oneLineFrom(string(op.Added[k]), 0)
 //@     invariant forall k int :: { op.Removed[k] } 0 <= k && k <= rangeindex ==> !text.Empty(string(op.Removed[k])) && text.oneLineFrom(string(op.Removed[k]), 0)
+
+// The editing helpers (C10): ChangeLabels turns the requested additions and removals into an operation that adds
+// only labels the bug does not have yet and removes only labels it has - each once -, answers one result per
+// requested label, and appends nothing when nothing is left to change.
+//@ func labelExist
+//@   props C10
+//@   nopanic
+//@   modifies nothing
+//@   ensures [member] result == (exists k int :: { labels[k] } 0 <= k && k < len(labels) && labels[k] == label)
+//@   loop 1
+//@     invariant forall k int :: { labels[k] } 0 <= k && k <= rangeindex ==> labels[k] != label
+//@ func NewLabelChangeOperation
+//@   props C10
+//@   modifies nothing
+//@   opt trusted_frame
+//@   ensures [carries-the-lists] result != nil && fresh(result) && result.Added == added && result.Removed == removed
+//@ func ChangeLabels
+//@   props C10
+//@   assert at `op := NewLabelChangeOperation(author, unixTime, added, removed)` [one-answer-per-requested-label] len(results) == len(add) + len(remove)
+//@   assert at `op := NewLabelChangeOperation(author, unixTime, added, removed)` [added-are-new-and-distinct] (forall i int :: { added[i] } forall j int :: { added[j] } 0 <= i && i < j && j < len(added) ==> added[i] != added[j]) && (forall i int :: { added[i] } forall k int :: { snap.Labels[k] } 0 <= i && i < len(added) && 0 <= k && k < len(snap.Labels) ==> snap.Labels[k] != added[i])
+//@   assert at `op := NewLabelChangeOperation(author, unixTime, added, removed)` [removed-are-present-and-distinct] (forall i int :: { removed[i] } forall j int :: { removed[j] } 0 <= i && i < j && j < len(removed) ==> removed[i] != removed[j]) && (forall i int :: { removed[i] } 0 <= i && i < len(removed) ==> (exists k int :: { snap.Labels[k] } 0 <= k && k < len(snap.Labels) && snap.Labels[k] == removed[i]))
+//@   assert at `b.Append(op)` [appends-the-computed-change] op != nil && op.Added == added && op.Removed == removed
+//@   loop 1
+//@     invariant len(results) == rangeindex + 1 && (results == nil || fresh(results)) && (added == nil || (fresh(added) && !samearray(added, snap.Labels)))
+//@     invariant forall i int :: { added[i] } forall j int :: { added[j] } 0 <= i && i < j && j < len(added) ==> added[i] != added[j]
+//@     invariant forall i int :: { added[i] } forall k int :: { snap.Labels[k] } 0 <= i && i < len(added) && 0 <= k && k < len(snap.Labels) ==> snap.Labels[k] != added[i]
+//@   loop 2
+//@     invariant len(results) == len(add) + rangeindex + 1 && (results == nil || fresh(results)) && (removed == nil || (fresh(removed) && !samearray(removed, snap.Labels) && !samearray(removed, added))) && (added == nil || (fresh(added) && !samearray(added, snap.Labels)))
+//@     invariant forall i int :: { added[i] } forall j int :: { added[j] } 0 <= i && i < j && j < len(added) ==> added[i] != added[j]
+//@     invariant forall i int :: { added[i] } forall k int :: { snap.Labels[k] } 0 <= i && i < len(added) && 0 <= k && k < len(snap.Labels) ==> snap.Labels[k] != added[i]
+//@     invariant forall i int :: { removed[i] } forall j int :: { removed[j] } 0 <= i && i < j && j < len(removed) ==> removed[i] != removed[j]
+//@     invariant forall i int :: { removed[i] } 0 <= i && i < len(removed) ==> (exists k int :: { snap.Labels[k] } 0 <= k && k < len(snap.Labels) && snap.Labels[k] == removed[i])
+//@   loop 3
+//@     invariant op != nil && op.Added == added && op.Removed == removed
